@@ -2,7 +2,7 @@
    Statements only (copied from the lemma libraries); every proof is a bare
    `exact`; see the cited files in coq/proofs for the proofs. *)
 From Coq Require Import List NArith ZArith Bool Arith Sorting.Sorted Sorting.Permutation.
-From D2P Require Import Str Err Xml TableTypes Tables Fmt Merge Collector Walk TokFacts MiscFacts ProjFacts PyVal Source SourceBase ViewFacts SourceViews SourceEscape SourceFmt PyHeap SourceHeap SourceHeapRuns SourceCaret SourceFresh SourceRuns.
+From D2P Require Import Str Err Xml TableTypes Tables Fmt Merge Collector Walk TokFacts MiscFacts ProjFacts PyVal Source SourceBase ViewFacts SourceViews SourceEscape SourceElem SourceFmt PyHeap SourceHeap SourceHeapRuns SourceCaret SourceFresh SourceRuns.
 Import ListNotations.
 Open Scope N_scope.
 Import String.StringSyntax.
